@@ -2423,7 +2423,8 @@ def preprocess_file(
                     out.append(line[pos : end + 1])
                     pos = end + 1
                     continue
-                arg_map = dict(zip(def_args, args))
+                # Blanks around an argument are not part of it
+                arg_map = dict(zip(def_args, (arg.strip() for arg in args)))
                 expansion = body
                 if arg_regex is not None:
                     expansion = arg_regex.sub(lambda m: arg_map[m.group(0)], body)
